@@ -4,6 +4,7 @@ import Woodpile.Model.IovecOps
 import Woodpile.Model.IovecApi
 import Woodpile.Model.IovecApi2
 import Woodpile.Gen.Consts
+import Woodpile.Driver.Unwind
 
 /-
 Family `iovec`: histories over OwningIovec / ConsumingIovec / ByteArena /
@@ -408,8 +409,39 @@ def stepApi (s : St) (ws : List String) : Option (St × List String) :=
     | _, _ => bad
   | _ => none
 
+/-! ### Track traits: `Clone::clone_from`, ops made while unwinding
+
+`clone_from v<d> v<s>` is `dst.clone_from(&src)` on two distinct live iovecs; the harness then moves
+the destination object to a fresh handle, so the model side is the plain history `clone s` (new
+handle), `drop d`.  Likewise `s_clone_from` = `sClone`, `sDrop` and `a_clone_from` = `newArena`
+(`ByteArena::clone` cannot clone the allocation cache), `dropArena`. -/
+def stepTraits (s : St) (ws : List String) : Option (St × List String) :=
+  let w := s.w
+  let bad : Option (St × List String) := some (s, ["bad-op"])
+  match ws with
+  | ["dbg"] => some (ok s w [] none)       -- `Debug` of every live object: no effect
+  | ["clone_from", d, src] =>
+    match handle 'v' d, handle 'v' src with
+    | some d, some i =>
+      if d ≠ i && (w.iov d).isSome && (w.iov i).isSome then some (runApi s [.clone i, .drop d] [] (some w.iovs.length)) else bad
+    | _, _ => bad
+  | ["s_clone_from", d, src] =>
+    match handle 's' d, handle 's' src with
+    | some d, some i =>
+      if d ≠ i && (w.aslice d).isSome && (w.aslice i).isSome then some (runApi s [.sClone i, .sDrop d] [] none) else bad
+    | _, _ => bad
+  | ["a_clone_from", d, src] =>
+    match handle 'a' d, handle 'a' src with
+    | some d, some i =>
+      if d ≠ i && (w.arena d).isSome && (w.arena i).isSome then some (runApi s [.newArena, .dropArena d] [] none) else bad
+    | _, _ => bad
+  | _ => none
+
 def step (s : St) (ws : List String) : St × List String :=
   if s.dead then (s, []) else
+  match stepTraits s ws with
+  | some r => r
+  | none =>
   match stepApi s ws with
   | some r => r
   | none =>
@@ -417,6 +449,15 @@ def step (s : St) (ws : List String) : St × List String :=
     | some op => stepWOp s op
     | none => (s, ["bad-op"])
 
-def family : Family := { σ := St, init := St.init, step := step }
+/-- `unwinding <ws>`: only `pop` / `sc_pop` / `backfill` can panic in this vocabulary; they are accepted when
+they do not (harness: `IovecExec::unwind_safe_words`), decided on the op's own answer. -/
+def family : Family :=
+  withUnwindOut { σ := St, init := St.init, step := step } (fun s _ => !s.dead)
+    (fun ws outs =>
+      match ws with
+      | op :: _ =>
+        (op = "pop" || op = "sc_pop" || op = "backfill") &&
+          (outs.contains "panic" || outs.contains "R panicked" || outs.contains "bad-op")
+      | [] => true)
 
 end Woodpile.Driver.IovecFam
